@@ -1349,6 +1349,9 @@ impl TensorStore {
 
         // Clear current and copy data from new router
         self.router.clear();
+        if let Some(ref filter) = self.bloom_filter {
+            filter.clear();
+        }
 
         // Table rows and schemas live in the relational slab, not under keys, so the
         // key-by-key copy below does not carry them: restore that slab as a whole.
@@ -1358,6 +1361,10 @@ impl TensorStore {
 
         for key in new_router.scan("") {
             if let Ok(value) = new_router.get(&key) {
+                // get/exists consult the Bloom filter first: restored keys must be in it
+                if let Some(ref filter) = self.bloom_filter {
+                    filter.add(&key);
+                }
                 // Best-effort restore - continue even if individual entries fail
                 if let Err(e) = self.router.put(&key, value) {
                     tracing::warn!(
